@@ -111,7 +111,8 @@ class _Rec(object):
         except BaseException as e:
             self.rn_calls.append((size, timeout, type(e).__name__))
             raise
-        self.chunks.append(s)
+        if not getattr(self, '_rec_via_log', False):
+            self.chunks.append(s)
         self.rn_calls.append((size, timeout, len(s)))
         return s
 
